@@ -469,6 +469,17 @@ func buildNasModel(c *core.Ctx) *nasModel {
 			msg.Problems = append(msg.Problems, "no Decode method")
 		}
 	}
+	// encoders outside the syntax-tree vocabulary: read on the abstract evaluator (c08enc.go)
+	for _, msg := range m.Msgs {
+		if msg.Name == "SecurityProtected5GSNASMessage" || !nasEncodeNeedsX(msg) {
+			continue
+		}
+		if ok, why := nasEncodeModelX(c, m, msg); ok {
+			c.Note("nasMessage.%s: the encoder is not spelled with binary.Write operands alone; its writes were read on the abstract evaluator", msg.Name)
+		} else {
+			msg.Problems = append(msg.Problems, "encode: also not readable on the abstract evaluator: "+why)
+		}
+	}
 	return m
 }
 
